@@ -152,7 +152,7 @@ fn parse_path(
                     Ok((
                         ReassignmentPath::Ident(cloned),
                         primary.as_span(),
-                        ident.is_const(),
+                        ident.is_write_protected(),
                     ))
                 }
                 x => Err(vec![new_err(
